@@ -37,6 +37,7 @@ def run(ctx: Ctx) -> Result:
         st = f['status']; items = [] if f.get('stack', '-') in ('-', '?') else [bytes.fromhex(x) if x != 'e' else b'' for x in f['stack'].split(',')]
         return st, items, o
     lines = []
+    builds = []          # (BUILD2 line for the model's builder, the implementation's bytes)
     def rec(script, cache=None):
         lines.append((cache or {}, script))
     edge_t = [(1).to_bytes(32, 'little'), (L - 1).to_bytes(32, 'little'), (2**255 - 1).to_bytes(32, 'little'), b'\xff' * 32, (8).to_bytes(32, 'little'), (L + 5).to_bytes(32, 'little')]
@@ -202,6 +203,9 @@ def run(ctx: Ctx) -> Result:
             w = T.make_adapter_witness(seed, Tp, sf, flags)
             l1, l3 = T.make_adapter_locks_pub(X, Tp, flags)
             p1, p2, p3 = T.make_adapter_locks_prv(X, t_raw, flags)
+            builds.append((f'BUILD2 adapter_lock1 {X.hex()} {Tp.hex()} {int(flags, 16)}', l1.bytes.hex()))
+            builds.append((f'BUILD2 single_sig_lock {X.hex()} {int(flags, 16)}', l3.bytes.hex()))
+            builds.append((f'BUILD2 adapter_decrypt {t_raw.hex()}', p2.bytes.hex()))
             if (p1.bytes, p3.bytes) != (l1.bytes, l3.bytes):
                 viol('make_adapter_locks_prv vs make_adapter_locks_pub(X, t*G)', {'seed': seed.hex(), 'tweak': t_raw.hex(), 'flags': flags}, l1.bytes.hex() + ' / ' + l3.bytes.hex(), p1.bytes.hex() + ' / ' + p3.bytes.hex())
             with vmrun.Env(cfg) as env:
@@ -262,12 +266,16 @@ def run(ctx: Ctx) -> Result:
                 ok, soft, why = vmrun.compare_run(r, o)
                 if not ok and len(res.disagreements) < 20:
                     res.disagreements.append({'script': s.hex()[:200], 'why': why, 'model': r[:160], 'impl': o[:160]})
+            for (line, got), r in zip(builds, ctx.driver.run([b[0] for b in builds])):
+                if r != got and len(res.disagreements) < 20:
+                    res.disagreements.append({'builder': line, 'model': r[:300], 'impl': got[:300]})
         except DriverCrash as e:
             res.disagreements.append({'driver': str(e)[:300]})
     else:
         res.disagreements.append({'driver': 'not built'})
     res.sample({'make_adapter_sig_public': lines[0][1].hex()[:200]})
     res.stats['scripts_compared_with_model'] = len(lines)
+    res.stats['builder_outputs_compared_with_model'] = len(builds)
     res.stats['search'] = 'each case judged on the implementation alone by independent integer / PyNaCl arithmetic'
     for v in res.violations:
         if v['input'].get('finding') == 'K4': v['finding'] = 'K4'
